@@ -773,6 +773,9 @@ def getinterpweights(xs, nxs, kind='linear', fill_value='extrapolate',
 
     """
     from scipy.interpolate import interp1d
+    if np.size(xs) == 1:
+        # a single source level is the value everywhere
+        return np.ones((1, np.size(nxs)), dtype='d')
     # identity matrix
     ident = np.identity(xs.size)
     # weight function; use bounds outside
